@@ -1,4 +1,5 @@
 import HC.Proofs.RefTree
+import HC.Props.C02
 /-!
 # C05 — Merkle tree, root hash and signature match an independent reference
 
@@ -22,8 +23,14 @@ the crate and with a third reference in the harness.
   `C.tree (reference roots)` and `C.sign seed (signableOf …)`; `signature_verifies`: it verifies under
   the public key whenever `verify (publicKey seed) m (sign seed m)` holds.
 
-Not covered by theorems (validated by the run): reopen (the roots are reloaded from the tree store),
-and that proofs carry persisted nodes (`proof_nodes`).
+* `history_tree` / `recovered_tree` : on the model of the whole crate — after **any** history of calls and
+  close-and-reopen steps (the roots are then reloaded from the tree store and rebuilt by the replay), and
+  after recovery from a crash at any storage operation of a further call, the tree's roots, length and byte
+  length are the reference ones and every node lookup below the length (unflushed map, then the store)
+  returns the reference node.
+
+Not covered by theorems (validated by the run): that proofs carry persisted nodes (`proof_nodes`), and the
+signature stored in the header after a reopen.
 -/
 namespace HC.C05
 open HC HC.Codec HC.Tree HC.RefTree HC.RefProof
@@ -87,5 +94,43 @@ example (C : Crypto) : RootsOK C (#[[1], [2, 3], []] : Array Bytes)
   have h0 := treeOK_empty C
   have h1 := (append_ref C #[] ({} : Tree).changeset [1] h0).1
   exact appendMany_ref C [[2, 3], []] _ _ h1
+
+/-! ### the whole crate: histories, reopens, crash recovery -/
+
+section Model
+open HC.LogSpec HC.LiveRefine HC.TreeStore HC.Persist HC.C01 HC.Offsets
+
+/-- what the representation invariant says about the tree -/
+theorem rep_tree (C : Crypto) (c : Core) (d : Disk) (a : Abs) (h : Rep C c d a) :
+    RootsOK C a.blocks c.tree.changeset
+      ∧ ∀ dd o, (o + 1) * 2 ^ dd ≤ a.blocks.size → c.tree.node? d.tree (Flat.index dd o) = some (nodeAt C a.blocks dd o) :=
+  ⟨h.tree, h.nodes⟩
+
+/-- along every history of a freshly created writer core, with any number of reopen steps -/
+theorem history_tree (C : Crypto) (hC : HashWF C) (hS : SignWF C) (hTw : TreeWF C) (pk sk : Bytes)
+    (hpk : pk.length = 32) (hsk : sk.length = 32) (steps : List HStep) (hok : AllOK {} steps) :
+    ∃ c j, Core.openCore C (some (pk, some sk)) {} = .ok (c, j) ∧
+      RootsOK C (runA' {} steps).1.blocks (runC' C (c, ({} : Disk).applyAll j) steps).1.1.tree.changeset
+      ∧ ∀ dd o, (o + 1) * 2 ^ dd ≤ (runA' {} steps).1.blocks.size →
+          (runC' C (c, ({} : Disk).applyAll j) steps).1.1.tree.node? (runC' C (c, ({} : Disk).applyAll j) steps).1.2.tree (Flat.index dd o)
+            = some (nodeAt C (runA' {} steps).1.blocks dd o) := by
+  obtain ⟨c, j, h1, h2, h3⟩ := init_both C pk sk hpk hsk
+  obtain ⟨hrep, _⟩ := C02.history_invariants_reopen C hC hS hTw steps c _ {} _ {} [] h2 h3 hok
+  exact ⟨c, j, h1, hrep.tree, hrep.nodes⟩
+
+/-- after recovery from a crash at any storage operation of any further call -/
+theorem recovered_tree (C : Crypto) (hC : HashWF C) (hS : SignWF C) (hTw : TreeWF C) (pk sk : Bytes)
+    (hpk : pk.length = 32) (hsk : sk.length = 32) (steps : List HStep) (hok : AllOK {} steps) (op : Op)
+    (hv : Valid (runA' {} steps).1 op) (hl : Limits (runA' {} steps).1 op) (k : Nat) :
+    ∃ c j, Core.openCore C (some (pk, some sk)) {} = .ok (c, j) ∧
+      ∃ c' jo, Core.openCore C none (crashDisk C (runC' C (c, ({} : Disk).applyAll j) steps).1 op k) = .ok (c', jo)
+        ∧ ∃ a, (a = (runA' {} steps).1 ∨ a = ((runA' {} steps).1.step op).1) ∧ RootsOK C a.blocks c'.tree.changeset := by
+  obtain ⟨c, j, h1, c', jo, h2, h3⟩ := C02.crash_atomic C hC hS hTw pk sk hpk hsk steps hok op hv hl k
+  refine ⟨c, j, h1, c', jo, h2, ?_⟩
+  rcases h3 with h3 | h3
+  · exact ⟨_, Or.inl rfl, h3.tree⟩
+  · exact ⟨_, Or.inr rfl, h3.tree⟩
+
+end Model
 
 end HC.C05
